@@ -518,6 +518,10 @@ def c12_monitor(ctx, tr, ix):
                     continue
                 q, last = h["long"]["qty"], h["long"]["last"]
                 dps = 0.0
+                if h["long"]["div"] is not None and any(r[1] == prev8 for r in S["div"].get(oid, [])):
+                    # a receivable is pending when the next book closure is processed — also for a holding that was sold out meanwhile
+                    # (quantity 0: the new receivable is 0 and replaces the pending one): finding F21
+                    actions.append("overlapping_dividend")
                 for r in S["div"].get(oid, []):
                     if r[1] == prev8 and q:
                         dps += r[4] / r[5]
